@@ -402,13 +402,15 @@ func (c *compiler) compile(tok *token) []instruction {
 				key = c.expPrefix(key)
 				idx = lookup.Index(key)
 			}
+			raw := reg(1) // an untyped constant stays untyped: it takes the type of the operand it meets (B = 1: store as is)
 			if len(target.Tokens) > 0 {
+				raw = 0
 				typ := typeFromToken(c, target.Tokens[0])
 				if slices.Contains([]Type{TypeUint8, TypeInt8, TypeUint32, TypeInt32, TypeFloat64}, typ) {
 					res = append(res, instruction{Code: codeCast, A: reg(typ)})
 				}
 			}
-			res = append(res, instruction{Code: code, A: reg(idx)})
+			res = append(res, instruction{Code: code, A: reg(idx), B: raw})
 		}
 	case ":=", "var":
 		values := c.compile(tok.Tokens[1])
